@@ -267,6 +267,25 @@ impl FlwCfg {
         })
     }
 
+    /// the FileSpec as handed to the builders: under build variant bit 0 the start-time setting
+    /// is left at its default wherever the documented default (start time iff no rotation) is
+    /// what the configuration asks for anyway
+    fn file_spec_for_build(&self) -> FileSpec {
+        if build_variant() & 1 != 0 && self.use_ts == self.crit.is_none() {
+            let mut fs = FileSpec::default()
+                .directory(&self.names.dir)
+                .basename(self.names.basename.clone())
+                .o_discriminant(self.names.discr.clone())
+                .o_suffix(self.names.suffix.clone());
+            if self.names.basename.is_empty() {
+                fs = fs.suppress_basename();
+            }
+            fs
+        } else {
+            self.file_spec()
+        }
+    }
+
     pub fn file_spec(&self) -> FileSpec {
         let mut fs = FileSpec::default()
             .directory(&self.names.dir)
@@ -310,14 +329,20 @@ impl FlwCfg {
     }
 
     pub fn flw_builder(&self) -> FileLogWriterBuilder {
-        let mut b = FileLogWriter::builder(self.file_spec())
+        let mut b = FileLogWriter::builder(self.file_spec_for_build())
             .format(self.fmt.func())
             .write_mode(self.wmode.to_write_mode())
             .max_level(self.max_level)
             .cleanup_in_background_thread(self.clean_bg)
             .o_append(self.append);
         if let (Some(n), Some(c)) = (self.naming(), self.criterion()) {
-            b = b.rotate(c, n, self.cleanup());
+            b = if build_variant() & 4 != 0 {
+                b.o_rotate(Some((c, n, self.cleanup())))
+            } else {
+                b.rotate(c, n, self.cleanup())
+            };
+        } else if build_variant() & 4 != 0 {
+            b = b.o_rotate(None);
         }
         if self.crlf {
             b = b.use_windows_line_ending();
@@ -332,15 +357,25 @@ impl FlwCfg {
     }
 
     pub fn logger(&self) -> Logger {
-        let mut l = Logger::with(LogSpecification::trace())
-            .log_to_file(self.file_spec())
+        let mut l = Logger::with(LogSpecification::trace());
+        // build variant bit 1: rotation is configured before the file specification is handed over
+        let rotate_first = build_variant() & 2 != 0;
+        if rotate_first {
+            if let (Some(n), Some(c)) = (self.naming(), self.criterion()) {
+                l = l.rotate(c, n, self.cleanup());
+            }
+        }
+        l = l
+            .log_to_file(self.file_spec_for_build())
             .format_for_files(self.fmt.func())
             .write_mode(self.wmode.to_write_mode())
             .cleanup_in_background_thread(self.clean_bg)
             .o_append(self.append)
             .error_channel(error_channel());
-        if let (Some(n), Some(c)) = (self.naming(), self.criterion()) {
-            l = l.rotate(c, n, self.cleanup());
+        if !rotate_first {
+            if let (Some(n), Some(c)) = (self.naming(), self.criterion()) {
+                l = l.rotate(c, n, self.cleanup());
+            }
         }
         if self.crlf {
             l = l.use_windows_line_ending();
@@ -353,6 +388,19 @@ impl FlwCfg {
         }
         l
     }
+}
+
+thread_local! {
+    static BUILD_VARIANT: std::cell::Cell<u8> = const { std::cell::Cell::new(0) };
+}
+/// Equivalent ways of saying the same configuration to the builders (bit 0: start-time setting
+/// left at its documented default; bit 1: `rotate` before `log_to_file`; bit 2: `o_rotate`
+/// instead of `rotate`). Per thread, i.e. per case.
+pub fn set_build_variant(v: u8) {
+    BUILD_VARIANT.with(|b| b.set(v));
+}
+pub fn build_variant() -> u8 {
+    BUILD_VARIANT.with(std::cell::Cell::get)
 }
 
 fn leak(s: &str) -> &'static str {
